@@ -108,32 +108,34 @@ type result struct {
 }
 
 var errClass = map[string]string{
-	"9p: unknown fid":             "unknownfid",
-	"9p: duplicate fid":           "dupfid",
-	"9p: Non-normalized path":     "nonnorm",
-	"9p: not a directory":         "notdir",
-	"9p: Invalid path":            "invalidpath",
-	"9p: invalid path":            "invalidpath2",
-	"9p: file not found":          "notfound",
-	"9p: illegal filename":        "illegal",
-	"9p: 9p: unknown fid":         "c_unknownfid",
-	"9p: create in non-directory": "createnondir",
-	"9p: 9p: Invalid path":        "c_invalidpath",
-	"9p: duplicate file name":     "dupname",
-	"9p: not a directory.":        "rmnotdir",
-	"9p: already open":            "alreadyopen",
-	"9p: no file open":            "nofile",
-	"9p: read prohibited":         "noread",
-	"9p: write prohibited":        "nowrite",
-	"EOF":                         "eof",
-	"9p: invalid address":         "invalidaddr",
-	"9p: invalid":                 "invalid",
-	"9p: bad offset":              "badoffset",
-	"9p: not implemented":         "notimpl",
-	"9p: Size larger than file":   "toolarge",
-	"9p: cannot remove root":      "rmroot",
-	"not found":                   "rmnotfound",
-	"not a directory.":            "rmnotdir",
+	"9p: unknown fid":                          "unknownfid",
+	"9p: duplicate fid":                        "dupfid",
+	"9p: Non-normalized path":                  "nonnorm",
+	"9p: not a directory":                      "notdir",
+	"9p: Invalid path":                         "invalidpath",
+	"9p: invalid path":                         "invalidpath2",
+	"9p: file not found":                       "notfound",
+	"9p: illegal filename":                     "illegal",
+	"9p: 9p: unknown fid":                      "c_unknownfid",
+	"9p: create in non-directory":              "createnondir",
+	"9p: 9p: Invalid path":                     "c_invalidpath",
+	"9p: 9p: not a directory":                  "c_notdir",
+	"9p: duplicate file name":                  "dupname",
+	"9p: not a directory.":                     "rmnotdir",
+	"9p: already open":                         "alreadyopen",
+	"9p: no file open":                         "nofile",
+	"9p: read prohibited":                      "noread",
+	"9p: write prohibited":                     "nowrite",
+	"EOF":                                      "eof",
+	"9p: invalid address":                      "invalidaddr",
+	"9p: invalid":                              "invalid",
+	"9p: bad offset":                           "badoffset",
+	"9p: not implemented":                      "notimpl",
+	"9p: Size larger than file":                "toolarge",
+	"9p: cannot remove root":                   "rmroot",
+	"9p: wstat -- attempt to change directory": "wstatdir",
+	"not found":                                "rmnotfound",
+	"not a directory.":                         "rmnotdir",
 }
 
 func classOf(err error) string {
@@ -705,9 +707,117 @@ var goodNames = []string{"a", "b", "c", "d", "e", "f"}
 var badNames = []string{"", ".", "..", "a/b", "x\\y", "..."}
 
 type gen struct {
-	rng   *prng.R
-	r     *ref
-	nsess int
+	rng     *prng.R
+	r       *ref
+	nsess   int
+	pending []op // rest of a scripted scenario
+}
+
+func chainNames(f *rfid) []string {
+	var out []string
+	for _, n := range f.chain[1:] {
+		out = append(out, n.name)
+	}
+	return out
+}
+
+// scenario queues a scripted pattern around the directory of an unopened fid:
+//
+//	stale remove: two fids reach the same entry; one removes it, the name is
+//	created again, the other (stale) fid is removed - the new entry must stay;
+//	removed directory: a fid deep below a directory that is then removed walks
+//	'..' back through it, lists it and creates in it.
+func (g *gen) scenario() bool {
+	rng := g.rng
+	s := rng.Intn(g.nsess)
+	d, ok := g.pickFid(s, func(f *rfid) bool { return !f.open && f.ent().dir })
+	if !ok {
+		return false
+	}
+	used := map[uint32]bool{}
+	fresh := func(ss int) uint32 {
+		for {
+			f := uint32(20 + rng.Intn(60))
+			if g.r.fids[ss][f] == nil && !used[f] {
+				used[f] = true
+				return f
+			}
+		}
+	}
+	nm := goodNames[rng.Intn(len(goodNames))]
+	perm := uint32(0666)
+	if rng.Bool() {
+		perm = p9p.DMDIR | 0777
+	}
+	var q []op
+	clone := func(ss int, from uint32) uint32 {
+		c := fresh(ss)
+		q = append(q, op{kind: "walk", s: ss, fid: from, newfid: c})
+		return c
+	}
+	if rng.Bool() { // stale remove
+		c1 := clone(s, d)
+		q = append(q, op{kind: "create", s: s, fid: c1, name: nm, perm: perm, mode: 2}, op{kind: "clunk", s: s, fid: c1})
+		a, b := fresh(s), fresh(s)
+		q = append(q, op{kind: "walk", s: s, fid: d, newfid: a, names: []string{nm}})
+		s2, from := s, d
+		var names = []string{nm}
+		if g.nsess > 1 && rng.Bool() { // the stale fid belongs to another session
+			s2 = (s + 1 + rng.Intn(g.nsess-1)) % g.nsess
+			b = fresh(s2)
+			from = fresh(s2)
+			q = append(q, op{kind: "attach", s: s2, fid: from, uname: "u1"})
+			names = append(chainNames(g.r.fids[s][d]), nm)
+		}
+		q = append(q, op{kind: "walk", s: s2, fid: from, newfid: b, names: names})
+		q = append(q, op{kind: "remove", s: s, fid: a})
+		c2 := clone(s, d)
+		perm2 := perm
+		if rng.Chance(1, 3) {
+			perm2 ^= p9p.DMDIR
+		}
+		q = append(q, op{kind: "create", s: s, fid: c2, name: nm, perm: perm2, mode: 2})
+		if rng.Bool() {
+			q = append(q, op{kind: "clunk", s: s, fid: c2})
+		}
+		q = append(q, op{kind: "remove", s: s2, fid: b})
+		c3 := clone(s, d)
+		q = append(q, op{kind: "open", s: s, fid: c3, mode: 0}, op{kind: "read", s: s, fid: c3, count: bigCount}, op{kind: "clunk", s: s, fid: c3})
+		if s2 != s {
+			q = append(q, op{kind: "clunk", s: s2, fid: from})
+		}
+	} else { // '..' through a removed directory
+		x, y := nm, goodNames[rng.Intn(len(goodNames))]
+		c1 := clone(s, d)
+		q = append(q, op{kind: "create", s: s, fid: c1, name: x, perm: p9p.DMDIR | 0777, mode: 0}, op{kind: "clunk", s: s, fid: c1})
+		dx := fresh(s)
+		q = append(q, op{kind: "walk", s: s, fid: d, newfid: dx, names: []string{x}})
+		c2 := clone(s, dx)
+		q = append(q, op{kind: "create", s: s, fid: c2, name: y, perm: perm, mode: 2}, op{kind: "write", s: s, fid: c2, data: rng.Bytes(4)}, op{kind: "clunk", s: s, fid: c2})
+		deep := fresh(s)
+		q = append(q, op{kind: "walk", s: s, fid: d, newfid: deep, names: []string{x, y}})
+		q = append(q, op{kind: "remove", s: s, fid: dx})                                       // removes the non-empty directory x; deep still holds it
+		q = append(q, op{kind: "walk", s: s, fid: d, newfid: fresh(s), names: []string{x, y}}) // must fail now
+		if perm&p9p.DMDIR == 0 {
+			up := fresh(s)
+			q = append(q, op{kind: "open", s: s, fid: deep, mode: 0}, op{kind: "read", s: s, fid: deep, count: 10})
+			_ = up
+		} else {
+			up := fresh(s)
+			q = append(q, op{kind: "walk", s: s, fid: deep, newfid: up, names: []string{".."}})
+			q = append(q, op{kind: "open", s: s, fid: up, mode: 0}, op{kind: "read", s: s, fid: up, count: bigCount})
+			up2 := fresh(s)
+			q = append(q, op{kind: "walk", s: s, fid: deep, newfid: up2, names: []string{"..", "..", x}}) // x is gone from d
+			in := fresh(s)
+			q = append(q, op{kind: "walk", s: s, fid: deep, newfid: in, names: []string{"..", y}})
+			q = append(q, op{kind: "create", s: s, fid: in, name: "z", perm: 0666, mode: 1}, op{kind: "clunk", s: s, fid: in}, op{kind: "clunk", s: s, fid: up})
+		}
+		if rng.Bool() {
+			q = append(q, op{kind: "clunk", s: s, fid: deep}, op{kind: "reftable"})
+		}
+	}
+	g.pending = q
+	return true
 }
 
 func (g *gen) pickFid(s int, pred func(*rfid) bool) (uint32, bool) {
@@ -807,6 +917,17 @@ func (g *gen) walkNames(f *rfid) []string {
 // what the implementation did so far, as far as the property determines it).
 func (g *gen) next() op {
 	rng := g.rng
+	if len(g.pending) == 0 && rng.Chance(1, 40) {
+		g.scenario()
+	}
+	if len(g.pending) > 0 {
+		o := g.pending[0]
+		g.pending = g.pending[1:]
+		if o.kind == "wstat" {
+			o.wmode, o.wlen = ^uint32(0), ^uint64(0)
+		}
+		return o
+	}
 	s := rng.Intn(g.nsess)
 	fids := g.r.fids[s]
 	unopened := func(f *rfid) bool { return !f.open }
@@ -1003,7 +1124,9 @@ func runSequential(r *rep.Report) {
 					feats["dotdot"] = true
 				}
 			}
-			rf.check(o, res, func(key, what string) { fails = append(fails, pend{key, fmt.Sprintf("op %d %s: %s", len(ops)-1, sx.String(o.sexp()), what)}) })
+			rf.check(o, res, func(key, what string) {
+				fails = append(fails, pend{key, fmt.Sprintf("op %d %s: %s", len(ops)-1, sx.String(o.sexp()), what)})
+			})
 			if res.panicked {
 				panics++
 				stopped = true
